@@ -294,9 +294,10 @@ def rule_window(check):
         o = pv.origins(a, hir.call_args(n)[0])
         ok = all(r[0] == "param" and r[2] == 1 and p[-1:] == ("value",) for r, p in o)
         check.expect(ok, R, R + "/length-of-value", hir.loc(n), "length of Str.value", "window compares the length of %s" % sorted(origin_str(x) for x in o))
-    g0 = prog.fn("LiteralVisitor::get_result")
+    # from the entry point of the collection: whatever builds the result (get_result, into_result, a helper ..)
+    g0 = prog.fn("literal_visitor::get_literals")
     # the location is built in get_result or in a helper it calls (a method of the recorded occurrence)
-    locs_g = [(h, n) for h in prog.flat(g0, 2) for n in hir.walk(h.body) if n.get("k") == "Struct" and (n["res"].get("path") or "").endswith("LiteralLocation")]
+    locs_g = [(h, n) for h in prog.flat(g0, 3) for n in hir.walk(h.body) if n.get("k") == "Struct" and (n["res"].get("path") or "").endswith("LiteralLocation")]
     check.floor(R, "LiteralLocation literals", len(locs_g), 1)
     for g, n in locs_g:
         flds = {x["name"]: hir.peel(x["e"]) for x in n["fields"]}
